@@ -299,7 +299,7 @@ def run(tier, seed, replay=None):
     reports = hs[0]["reports"]
     cases = []
     for i, h in enumerate(hs):
-        top = [b"top-plain", b"t(1) op)", b"top sp"][i % 3]
+        top = [b"top-plain", b"t(1) op)", b"top sp", b" both ends ", b"\ttab:colon"][i % 5]
         cases.append(("p%d" % i, h["steps"], top, TZS[i % len(TZS)]))
     c.log("[C12] replaying %d process-state behaviours" % len(cases))
     obs, ns = run_cases(b, cases, b["root"] + "/run")
@@ -369,6 +369,13 @@ def run(tier, seed, replay=None):
     t2, n2 = judge(sub, obs2, "asan")
     total += t2
     nontriv += n2
+    # ... and every name keeps its meaning in a build without thread safety (a sample of the behaviours on the --disable-thread-safety build)
+    bn = c.build("nots", tag="C12n", cwd_etc=True)
+    subn = [("n" + lab, st, top, tz) for (lab, st, top, tz) in cases[:: max(1, len(cases) // (150 if tier == "quick" else 1500))]]
+    obs3, _ = run_cases(bn, subn, bn["root"] + "/run")
+    t3, n3 = judge(subn, obs3, "non-thread-safe")
+    total += t3
+    nontriv += n3
     rep.cov["traces_validated_against_impl"] = total
     rep.cov["evaluations"] = total * len(FIELDS)
     rep.cov["distinct_nontrivial"] = nontriv
